@@ -277,3 +277,11 @@ def virtual_64(O):
                     "virtual signal is 64 bits wide", lambda mod: {"bits": mval(mod, b, False)}, sc, judge)
         elif p.outcome == "panic":
             O.fail_path(p, "panic while creating a virtual signal: %s" % p.detail, {}, sc, judge)
+
+
+@obligation("C07/kani-mask-kernel", profiles=("dev",),
+            desc="second engine (Kani / CBMC over the compiled code): n & bit_mask(bits) keeps exactly the low `bits` bits of n "
+                 "for every width 1..=64 and every 64-bit n, without panic")
+def kani_mask_kernel(O):
+    from . import kani_obs
+    kani_obs.mask_kernel(O, "C07")
